@@ -120,7 +120,6 @@ psgstrf_thread_init(SuperMatrix *A, SuperMatrix *L, SuperMatrix *U,
     Glu.nextl  = 0;
     Glu.nextu  = 0;
     Glu.nextlu = 0;
-    ifill(perm_r, n, EMPTY);
 
     /* Identify relaxed supernodes at the bottom of the etree. */
     pxgstrf_relax = (pxgstrf_relax_t *)
@@ -147,6 +146,9 @@ psgstrf_thread_init(SuperMatrix *A, SuperMatrix *L, SuperMatrix *U,
     /* Allocate global storage common to all the factor routines */
     *info = psgstrf_MemInit(n, Astore->nnz, options, L, U, &Glu);
     if ( *info ) return NULL;
+    /* only now is it certain that a factorization will run (a workspace
+       query or a memory failure must leave the caller's perm_r alone) */
+    ifill(perm_r, n, EMPTY);
 
     /* Prepare arguments to all threads. */
     psgstrf_threadarg = (psgstrf_threadarg_t *) 
